@@ -8,7 +8,7 @@ import re
 from harness import core, htmlnorm, treegen, trees, xdoc
 
 GEN = ['gen_tables', 'gen_regex', 'gen_config', 'gen_escapes', 'gen_core']
-THEOREMS = ['C03_fragment_breaks_instance', 'C03_breaks_in_paragraph_text', 'C03_breaks_instance', 'C03_image_in_sentence', 'C03_strike_in_sentence', 'C03_strike_in_sentence_hypotheses', 'C03_escape_in_sentence', 'C03_escape_in_sentence_hypotheses', 'C03_code_in_sentence', 'C03_code_in_sentence_hypotheses', 'C03_fragment_code_instance', 'C03_fragment_sentence_instance', 'C03_mixed_phrases', 'C03_mixed_phrases_instance', 'C03_link_phrases', 'C03_link_phrases_instance', 'C03_link_in_sentence', 'C03_fragment_link_instance', 'C03_fragment_seq_document', 'C03_fragment_seq_html', 'C03_fragment_lists_instance', 'C03_fragment_inert_instance', 'C03_fragment_emphasis_instance', 'C03_fragment_rules_instance', 'C03_thematic_break', 'C03_thematic_configs', 'C03_setext_heading', 'C03_setext_hypotheses', 'C03_indented_code_block', 'C03_indented_code_hypotheses', 'C03_link_scanners_are_the_source', 'C03_fragment_parses', 'C03_fragment_token_tree', 'C03_fragment_hypotheses', 'C03_fragment_fuel_suffices', 'C03_fragment_document',
+THEOREMS = ['C03_one_in_sentence', 'C03_fragment_one_instance', 'C03_fragment_breaks_instance', 'C03_breaks_in_paragraph_text', 'C03_breaks_instance', 'C03_image_in_sentence', 'C03_strike_in_sentence', 'C03_strike_in_sentence_hypotheses', 'C03_escape_in_sentence', 'C03_escape_in_sentence_hypotheses', 'C03_code_in_sentence', 'C03_code_in_sentence_hypotheses', 'C03_fragment_code_instance', 'C03_fragment_sentence_instance', 'C03_mixed_phrases', 'C03_mixed_phrases_instance', 'C03_link_phrases', 'C03_link_phrases_instance', 'C03_link_in_sentence', 'C03_fragment_link_instance', 'C03_fragment_seq_document', 'C03_fragment_seq_html', 'C03_fragment_lists_instance', 'C03_fragment_inert_instance', 'C03_fragment_emphasis_instance', 'C03_fragment_rules_instance', 'C03_thematic_break', 'C03_thematic_configs', 'C03_setext_heading', 'C03_setext_hypotheses', 'C03_indented_code_block', 'C03_indented_code_hypotheses', 'C03_link_scanners_are_the_source', 'C03_fragment_parses', 'C03_fragment_token_tree', 'C03_fragment_hypotheses', 'C03_fragment_fuel_suffices', 'C03_fragment_document',
             'C03_fragment_html', 'C03_fragment_markdown_html', 'C03_fragment_html_instance', 'C03_fragment_paragraph_lines_instance', 'C03_fragment_headings_instance', 'C03_outline_lists', 'C03_outline_html', 'C03_outline_instance',
             'C03_fragment_document_markdown', 'C03_fragment_document_configs', 'C03_bounded_trees', 'C03_family_is_not_vacuous']
 TRUSTED = ['harness/treegen.py: the tree grammar, the speller (every free choice drawn and counted) and the direct HTML writer - the independent oracle; '
@@ -122,6 +122,13 @@ def frag_tree(rng, depth):
             # the text after the last segment: it too begins and ends with white space or punctuation (the theorem asks it of every segment), and the line must not end with white space
             segs[-1] = segs[-1][:-1] + (rng.choice(['.', ') .', ', x.', '"', '; ok.'] + ([''] if segs[-1][0] == 'lk' else [])),)
             return ('s', t0, segs)
+        if rng.random() < 0.12:                              # a one-line paragraph with a struck-through phrase, a backslash escape or an image (leaf FOne)
+            pre = ' '.join([rng.choice(FRAG_FIRST)] + [rng.choice(EM_WORDS) for _ in range(rng.randint(0, 3))]) + rng.choice([' ', ' (', ', ', ': "', ''])
+            post = rng.choice(['', '.', ' end', ', then more', ')', '" ok', '; z', '?x', 's'])
+            kind = rng.choice(['strike', 'esc', 'img'])
+            w = ' '.join(rng.choice(EM_INNER) for _ in range(rng.randint(1, 3)))
+            x = ('strike', w) if kind == 'strike' else ('esc', rng.choice('!"#%\'()*+,-./:;=>?@[\\]^_}')) if kind == 'esc' else ('img', w, rng.choice(LINK_DESTS))
+            return ('o', pre, x, post)
         if rng.random() < 0.12:                              # a paragraph whose lines are followed by any number of spaces (leaf FBrk)
             lines = [' '.join([rng.choice(FRAG_FIRST if i == 0 else FRAG_CONT)] + [rng.choice(EM_WORDS + EM_INNER) for _ in range(rng.randint(0, 3))]) for i in range(rng.randint(2, 4))]
             return ('b', [(l, rng.choice([0, 0, 1, 2, 2, 3, 6])) for l in lines[:-1]] + [(lines[-1], 0)])
@@ -209,6 +216,10 @@ def frag_gallina(t):
         return '(FLink %d %s %s %s %s)' % (ord(t[1][0]), _zl(t[1][1:]), _zl(t[2]), _zl(t[3]), _zl(t[4]))
     if t[0] == 'c':
         return '(FTick %d %s %s %s)' % (ord(t[1][0]), _zl(t[1][1:]), _zl(t[2]), _zl(t[3]))
+    if t[0] == 'o':
+        x = t[2]
+        gx = '(IStrike %s)' % _zl(x[1]) if x[0] == 'strike' else '(IEsc %d)' % ord(x[1]) if x[0] == 'esc' else '(IImg %s %s)' % (_zl(x[1]), _zl(x[2]))
+        return '(FOne %d %s %s %s)' % (ord(t[1][0]), _zl(t[1][1:]), gx, _zl(t[3]))
     if t[0] == 'b':
         (l0, k0), more = t[1][0], t[1][1:]
         return '(FBrk %d %s %d [%s])' % (ord(l0[0]), _zl(l0[1:]), k0, '; '.join('(%s, %d%%nat)' % (_zl(l), k) for l, k in more))
@@ -282,6 +293,8 @@ def frag_spell(t):
         return [t[1] + '[' + t[2] + '](' + t[3] + ')' + t[4]]
     if t[0] == 'c':
         return [t[1] + '`' + t[2] + '`' + t[3]]
+    if t[0] == 'o':
+        return [t[1] + inl_text(t[2]) + t[3]]
     if t[0] == 'b':
         return [l + ' ' * k for l, k in t[1][:-1]] + [t[1][-1][0]]
     if t[0] == 's':
@@ -349,6 +362,10 @@ def code_lines_html(text):
     return out + outside(text[pos:])
 
 
+def inl_text(x):
+    return '~~' + x[1] + '~~' if x[0] == 'strike' else '\\' + x[1] if x[0] == 'esc' else '![' + x[1] + '](' + x[2] + ')'
+
+
 def frag_expect(t, ln):
     """(dumped tree, line numbers in pre-order)"""
     if t[0] == 'p':
@@ -368,6 +385,11 @@ def frag_expect(t, ln):
     if t[0] == 'k':
         lk = [trees.TAGS['Link'], t[3], '', 'uri', [], '', [[0, t[2]]]]
         return [trees.TAGS['Paragraph'], [[0, t[1]], lk] + ([[0, t[4]]] if t[4] else [])], [ln]
+    if t[0] == 'o':
+        x = t[2]
+        el = ([trees.TAGS['Strikethrough'], [[0, x[1]]]] if x[0] == 'strike' else [trees.TAGS['EscapeSequence'], [[0, x[1]]]] if x[0] == 'esc'
+              else [trees.TAGS['Image'], x[2], '', 'uri', [], '', [[0, x[1]]]])
+        return [trees.TAGS['Paragraph'], [[0, t[1]], el] + ([[0, t[3]]] if t[3] else [])], [ln]
     if t[0] == 'b':
         ch = []
         for i, (l, k) in enumerate(t[1]):
@@ -429,6 +451,13 @@ def frag_html(t, tight):
         tag = 'strong' if len(t[2]) == 2 else 'em'
         inner = esc(t[1]) + '<%s>%s</%s>' % (tag, esc(t[3]), tag) + esc(t[4])
         return inner if tight else '<p>' + inner + '</p>'
+    if t[0] == 'o':
+        from urllib.parse import quote
+        x = t[2]
+        mid = ('<del>%s</del>' % esc(x[1]) if x[0] == 'strike' else esc(x[1]) if x[0] == 'esc'
+               else '<img src="%s" alt="%s" />' % (html_mod.escape(quote(x[2], safe='/#:()*?=%@+,&;')), html_mod.escape(x[1])))
+        inner = esc(t[1]) + mid + esc(t[3])
+        return inner if tight else '<p>' + inner + '</p>'
     if t[0] == 'b':
         inner = ''.join(esc(l) + ('<br />\n' if k >= 2 else '\n') for l, k in t[1][:-1]) + esc(t[1][-1][0])
         return inner if tight else '<p>' + inner + '</p>'
@@ -464,7 +493,7 @@ def frag_html(t, tight):
                 break
             node = node[4]
         tgl = not any(len(nd[3]) > 1 or (nd[0] == 'm' and nd[5]) for nd in nodes)
-        lis = ['<li>' + ('' if tgl and nd[3][0][0] in 'peksbc' else '\n') + '\n'.join(frag_html(k, tgl) for k in nd[3]) + ('' if tgl and nd[3][-1][0] in 'peksbc' else '\n') + '</li>' for nd in nodes]
+        lis = ['<li>' + ('' if tgl and nd[3][0][0] in 'peksbco' else '\n') + '\n'.join(frag_html(k, tgl) for k in nd[3]) + ('' if tgl and nd[3][-1][0] in 'peksbco' else '\n') + '</li>' for nd in nodes]
         if len(t[1]) == 1:
             return '<ul>\n' + '\n'.join(lis) + '\n</ul>'
         n = int(t[1][:-1])
@@ -474,8 +503,8 @@ def frag_html(t, tight):
     else:
         n = int(t[1][:-1])
         op, cl = ('<ol>' if n == 1 else '<ol start="%d">' % n), '</ol>'
-    return (op + '\n<li>' + ('' if tg and kids[0][0] in 'peksbc' else '\n') + '\n'.join(frag_html(k, tg) for k in kids)
-            + ('' if tg and kids[-1][0] in 'peksbc' else '\n') + '</li>\n' + cl)
+    return (op + '\n<li>' + ('' if tg and kids[0][0] in 'peksbco' else '\n') + '\n'.join(frag_html(k, tg) for k in kids)
+            + ('' if tg and kids[-1][0] in 'peksbco' else '\n') + '</li>\n' + cl)
 
 
 def outline_forest(rng, depth, width):
